@@ -121,7 +121,10 @@ Theorem C14_is_int_like_other_types : forall lim,
   (forall z, is_int_like lim (PInt z) = Ok (within_limit lim z)) /\
   (forall b, is_int_like lim (PBool b) = Ok false) /\
   is_int_like lim PNone = Ok false /\
-  (forall sv e, is_int_like lim (POther sv (Exn e)) = if catches [TypeError; ValueError] e then Ok false else Exn e).
+  (* floats: int(v) is an integer or raises OverflowError (inf) / ValueError (nan): never an exception *)
+  (forall sv iv, float_like_int iv = true ->
+     is_int_like lim (POther sv iv) = Ok true \/ is_int_like lim (POther sv iv) = Ok false) /\
+  (forall sv e, is_int_like lim (POther sv (Exn e)) = if catches [TypeError; ValueError; OverflowError] e then Ok false else Exn e).
 Proof. exact is_int_like_other_types. Qed.
 Print Assumptions C14_is_int_like_other_types.
 
